@@ -403,26 +403,6 @@ theorem no_users_after_replace {g : Graph} (hs : SSA g) {k best : Nat} (hbk : be
   unfold substId at ha
   split at ha <;> omega
 
-/-- the loop invariant proper: `Core`, every visited combiner is gone, nothing ahead has been
-touched -/
-structure ExpInv (win : String → Nat) (g0 : Graph) (k : Nat) (g : Graph) : Prop
-    extends Core win g0 k g where
-  done : ∀ i, i < k → (g.nd i).isCombine = false
-  fresh : ∀ i, k ≤ i → i < g.length → (g.nd i).live = true
-  /-- the only nodes the loop erases are combiners and (resolved) branch outputs -/
-  gone : ∀ i, i < g.length → (g.nd i).live = false → (g0.nd i).isCombine = true ∨
-    ∃ n a0, (g0.nd n).isCombine = true ∧ a0 ∈ (g0.nd n).args ∧ i = res win g0 a0
-  /-- the branch outputs of a visited combiner, other than the winner's, are erased -/
-  lost : ∀ n, n < k → (g0.nd n).isCombine = true → ∀ a0 ∈ (g0.nd n).args,
-    res win g0 a0 ≠ res win g0 n → (g.nd (res win g0 a0)).live = false
-
-theorem ExpInv.init {win : String → Nat} {g0 : Graph} (h : WF g0) : ExpInv win g0 0 g0 :=
-  { Core.init h with
-    done := fun i hi => absurd hi (Nat.not_lt_zero i)
-    fresh := fun i _ hi => h.2 i hi
-    gone := fun i hi hl => by rw [h.2 i hi] at hl; cases hl
-    lost := fun n hn => absurd hn (Nat.not_lt_zero n) }
-
 theorem isCombine_iff (nd : Node) : nd.isCombine = true ↔ ∃ c, nd.op = .combine c := by
   unfold Node.isCombine
   split
@@ -431,14 +411,325 @@ theorem isCombine_iff (nd : Node) : nd.isCombine = true ↔ ∃ c, nd.op = .comb
 
 theorem isCombine_E : Node.E.isCombine = false := rfl
 
+/-! ## the nodes of the discarded branches -/
+
+theorem length_backMarks (ok seed : Nat → Bool) : ∀ (rest : List Node) (i : Nat),
+    (backMarks ok seed rest i).length = rest.length
+  | [], _ => rfl
+  | _ :: rest, i => by simp [backMarks, length_backMarks ok seed rest (i + 1)]
+
+/-- the marks computed for a suffix are the suffix of the marks -/
+theorem backMarks_drop (ok seed : Nat → Bool) : ∀ (rest : List Node) (i k : Nat),
+    (backMarks ok seed rest i).drop k = backMarks ok seed (rest.drop k) (i + k)
+  | rest, i, 0 => by simp
+  | [], i, k + 1 => by simp [backMarks]
+  | _ :: rest, i, k + 1 => by
+    simp only [backMarks, List.drop_succ_cons]
+    rw [backMarks_drop ok seed rest (i + 1) k]
+    congr 1; omega
+
+/-- mark of node `i` -/
+def bmark (g : Graph) (ok seed : Nat → Bool) (i : Nat) : Bool := (backMarks ok seed g 0).getD i false
+
+theorem getD_drop' {α} (l : List α) (k j : Nat) (d : α) : (l.drop k).getD j d = l.getD (k + j) d := by
+  simp [List.getD, List.getElem?_drop]
+
+theorem any_zip_eq (q : Node → Bool) : ∀ (m : List Bool) (rest : List Node), m.length = rest.length →
+    ((m.zip rest).any fun p => p.1 && q p.2) =
+      (List.range rest.length).any fun j => m.getD j false && q (rest.getD j Node.E)
+  | [], [], _ => rfl
+  | [], _ :: _, h => by simp at h
+  | _ :: _, [], h => by simp at h
+  | b :: m, nd :: rest, h => by
+    have ih := any_zip_eq q m rest (by simpa using h)
+    simp only [List.zip_cons_cons, List.any_cons, ih, List.length_cons, List.range_succ_eq_map,
+      List.any_map]
+    congr 1
+
+/-- characterisation of the backward marking -/
+theorem bmark_eq (g : Graph) (ok seed : Nat → Bool) (i : Nat) (hi : i < g.length) :
+    bmark g ok seed i = (ok i && (seed i ||
+      (List.range (g.length - (i + 1))).any fun j =>
+        bmark g ok seed (i + 1 + j) && (g.nd (i + 1 + j)).args.contains i)) := by
+  unfold bmark
+  have h1 := backMarks_drop ok seed g 0 i
+  have h2 := backMarks_drop ok seed g 0 (i + 1)
+  simp only [Nat.zero_add] at h1 h2
+  have hd : g.drop i = g[i] :: g.drop (i + 1) := by simp
+  have : (backMarks ok seed g 0).getD i false = ((backMarks ok seed g 0).drop i).getD 0 false := by
+    rw [getD_drop']; simp
+  rw [this, h1, hd]
+  simp only [backMarks]
+  rw [← h2]
+  simp only [List.getD_cons_zero]
+  rw [any_zip_eq (fun nd => nd.args.contains i) _ _ (by rw [List.length_drop, List.length_drop, length_backMarks])]
+  simp only [List.length_drop]
+  congr 3
+  funext j
+  rw [getD_drop']
+  unfold Graph.nd
+  rw [getD_drop']
+
+/-- marked ⇒ `ok` -/
+theorem bmark_ok {g : Graph} {ok seed : Nat → Bool} {i : Nat} (h : bmark g ok seed i = true) : ok i = true := by
+  by_cases hi : i < g.length
+  · rw [bmark_eq g ok seed i hi] at h
+    simp only [Bool.and_eq_true] at h; exact h.1
+  · unfold bmark at h
+    rw [List.getD_eq_getElem?_getD, List.getElem?_eq_none (by rw [length_backMarks]; omega)] at h
+    cases h
+
+theorem bmark_lt {g : Graph} {ok seed : Nat → Bool} {i : Nat} (h : bmark g ok seed i = true) : i < g.length := by
+  by_contra hi
+  unfold bmark at h
+  rw [List.getD_eq_getElem?_getD, List.getElem?_eq_none (by rw [length_backMarks]; omega)] at h
+  cases h
+
+/-- a seed that is `ok` is marked -/
+theorem bmark_seed {g : Graph} {ok seed : Nat → Bool} {i : Nat} (hi : i < g.length) (hok : ok i = true)
+    (hs : seed i = true) : bmark g ok seed i = true := by
+  rw [bmark_eq g ok seed i hi]; simp [hok, hs]
+
+/-- marks propagate from a node to its (earlier, `ok`) arguments -/
+theorem bmark_arg {g : Graph} {ok seed : Nat → Bool} {a u : Nat} (hu : bmark g ok seed u = true)
+    (ha : a ∈ (g.nd u).args) (hau : a < u) (hok : ok a = true) : bmark g ok seed a = true := by
+  have hul := bmark_lt hu
+  rw [bmark_eq g ok seed a (by omega)]
+  simp only [hok, Bool.true_and, Bool.or_eq_true, List.any_eq_true, List.mem_range, Bool.and_eq_true,
+    List.contains_iff_mem]
+  right
+  refine ⟨u - (a + 1), by omega, ?_, ?_⟩
+  · rw [show a + 1 + (u - (a + 1)) = u by omega]; exact hu
+  · rw [show a + 1 + (u - (a + 1)) = u by omega]; exact ha
+
+/-- conversely a marked node is a seed or an argument of a marked later node -/
+theorem bmark_cases {g : Graph} {ok seed : Nat → Bool} {i : Nat} (h : bmark g ok seed i = true) :
+    seed i = true ∨ ∃ u, i < u ∧ bmark g ok seed u = true ∧ i ∈ (g.nd u).args := by
+  have hi := bmark_lt h
+  rw [bmark_eq g ok seed i hi] at h
+  simp only [Bool.and_eq_true, Bool.or_eq_true, List.any_eq_true, List.mem_range,
+    List.contains_iff_mem] at h
+  rcases h.2 with h1 | ⟨j, _, h2, h3⟩
+  · exact Or.inl h1
+  · exact Or.inr ⟨i + 1 + j, by omega, h2, h3⟩
+
+
+/-- `i` reaches an output -/
+def alive (g : Graph) (i : Nat) : Bool := (aliveMarks g).getD i false
+
+theorem alive_eq_bmark (g : Graph) (i : Nat) :
+    alive g i = bmark g (fun _ => true) (fun i => (g.nd i).op == .output) i := rfl
+
+theorem alive_output {g : Graph} {i : Nat} (hi : i < g.length) (h : (g.nd i).op = .output) :
+    alive g i = true := by
+  rw [alive_eq_bmark]; exact bmark_seed hi rfl (by simp [h])
+
+theorem alive_arg {g : Graph} (hs : SSA g) {a u : Nat} (hu : alive g u = true) (ha : a ∈ (g.nd u).args) :
+    alive g a = true := by
+  rw [alive_eq_bmark] at hu ⊢; exact bmark_arg hu ha (hs u a ha) rfl
+
+/-- a node without users that is not an output does not reach one -/
+theorem not_alive_of_unused {g : Graph} {i : Nat} (hu : hasUsers g i = false) (ho : (g.nd i).op ≠ .output) :
+    alive g i = false := by
+  by_contra hc
+  have hc' : alive g i = true := by simpa using hc
+  rw [alive_eq_bmark] at hc'
+  rcases bmark_cases hc' with h | ⟨u, _, _, hmem⟩
+  · simp at h; exact ho h
+  · have : hasUsers g i = true := (hasUsers_iff g i).2 ⟨u, hmem⟩
+    rw [hu] at this; cases this
+
+/-- ancestor of a discarded output that does not reach an output -/
+def anc (g : Graph) (disc : List Nat) (i : Nat) : Bool := (ancMarks g disc).getD i false
+
+theorem anc_eq_bmark (g : Graph) (disc : List Nat) (i : Nat) :
+    anc g disc i = bmark g (fun i => !(alive g i) && !(isInput (g.nd i))) (fun i => disc.contains i) i := rfl
+
+theorem anc_not_alive {g : Graph} {disc : List Nat} {i : Nat} (h : anc g disc i = true) : alive g i = false := by
+  rw [anc_eq_bmark] at h
+  have := bmark_ok h
+  simp only [Bool.and_eq_true, Bool.not_eq_true'] at this
+  exact this.1
+
+theorem anc_of_discarded {g : Graph} {disc : List Nat} {i : Nat} (hi : i < g.length) (hd : i ∈ disc)
+    (hna : alive g i = false) (hni : isInput (g.nd i) = false) : anc g disc i = true := by
+  rw [anc_eq_bmark]
+  exact bmark_seed hi (by simp [hna, hni]) (by simpa using hd)
+
+/-- member of a discarded branch -/
+def inRegion (g : Graph) (disc : List Nat) (i : Nat) : Bool := (regionMarks g disc).getD i false
+
+theorem inRegion_eq {g : Graph} (hs : SSA g) (disc : List Nat) (i : Nat) (hi : i < g.length) :
+    inRegion g disc i = (anc g disc i ||
+      ((g.nd i).op != .output && (g.nd i).args.any fun a => inRegion g disc a)) := by
+  unfold inRegion regionMarks
+  rw [getD_scanFrom _ g i false hi]
+  have hl : (scanFrom (fun acc nd => (ancMarks g disc).getD acc.length false ||
+      (nd.op != .output && nd.args.any fun a => acc.getD a false)) [] (g.take i)).length = i := by
+    rw [length_scanFrom]; simp; omega
+  simp only [hl]
+  have hany : ((g.nd i).args.any fun a => (scanFrom (fun acc nd => (ancMarks g disc).getD acc.length false ||
+      (nd.op != .output && nd.args.any fun a => acc.getD a false)) [] (g.take i)).getD a false) =
+      ((g.nd i).args.any fun a => (scanFrom (fun acc nd => (ancMarks g disc).getD acc.length false ||
+      (nd.op != .output && nd.args.any fun a => acc.getD a false)) [] g).getD a false) := by
+    rw [Bool.eq_iff_iff]
+    simp only [List.any_eq_true]
+    constructor
+    · rintro ⟨a, ha, h⟩
+      exact ⟨a, ha, by rw [← getD_scanFrom_take _ g i a false (hs i a ha) (by omega)]; exact h⟩
+    · rintro ⟨a, ha, h⟩
+      exact ⟨a, ha, by rw [getD_scanFrom_take _ g i a false (hs i a ha) (by omega)]; exact h⟩
+  have hnd : g.getD i Node.E = g.nd i := rfl
+  rw [hnd, hany]
+  rfl
+
+
+theorem inRegion_lt {g : Graph} {disc : List Nat} {i : Nat} (h : inRegion g disc i = true) : i < g.length := by
+  by_contra hi
+  unfold inRegion regionMarks at h
+  rw [getD_ge _ _ _ (by rw [length_scanFrom]; simp; omega)] at h
+  cases h
+
+theorem args_of_ge (g : Graph) (i : Nat) (h : g.length ≤ i) : (g.nd i).args = [] := by
+  rw [nd_of_ge g i h]; rfl
+
+/-- the members of the discarded branches do not reach an output -/
+theorem inRegion_not_alive {g : Graph} (hs : SSA g) (disc : List Nat) (i : Nat)
+    (h : inRegion g disc i = true) : alive g i = false := by
+  induction i using Nat.strong_induction_on with
+  | _ i ih =>
+    have hi := inRegion_lt h
+    rw [inRegion_eq hs disc i hi] at h
+    simp only [Bool.or_eq_true, Bool.and_eq_true, List.any_eq_true] at h
+    rcases h with h | ⟨_, a, ha, hra⟩
+    · exact anc_not_alive h
+    · by_contra hc
+      have hal : alive g i = true := by simpa using hc
+      have := ih a (hs i a ha) hra
+      rw [alive_arg hs hal ha] at this; cases this
+
+theorem inRegion_not_output {g : Graph} (hs : SSA g) (disc : List Nat) (i : Nat)
+    (h : inRegion g disc i = true) : (g.nd i).op ≠ .output := by
+  intro ho
+  have := inRegion_not_alive hs disc i h
+  rw [alive_output (inRegion_lt h) ho] at this; cases this
+
+/-- whatever uses a member of a discarded branch is a member too -/
+theorem inRegion_user {g : Graph} (hs : SSA g) (disc : List Nat) {a u : Nat} (ha : a ∈ (g.nd u).args)
+    (hra : inRegion g disc a = true) : inRegion g disc u = true := by
+  have hu : u < g.length := by
+    by_contra hc; rw [args_of_ge g u (by omega)] at ha; cases ha
+  rw [inRegion_eq hs disc u hu]
+  simp only [Bool.or_eq_true, Bool.and_eq_true, List.any_eq_true, bne_iff_ne, ne_eq]
+  right
+  refine ⟨?_, a, ha, hra⟩
+  intro ho
+  have h1 := alive_arg hs (alive_output hu ho) ha
+  rw [inRegion_not_alive hs disc a hra] at h1; cases h1
+
+theorem mem_regionDesc {g : Graph} {disc : List Nat} {i : Nat} :
+    i ∈ regionDesc g disc ↔ inRegion g disc i = true := by
+  unfold regionDesc
+  simp only [List.mem_reverse, List.mem_filter, List.mem_range]
+  constructor
+  · intro h; exact h.2
+  · intro h; exact ⟨inRegion_lt h, h⟩
+
+theorem regionDesc_sorted (g : Graph) (disc : List Nat) : (regionDesc g disc).Pairwise (· > ·) := by
+  unfold regionDesc
+  rw [List.pairwise_reverse]
+  exact List.Pairwise.filter _ List.pairwise_lt_range
+
+/-- erasing a set of nodes that contains all the users of its members, last node first, never
+finds a node that still has users -/
+theorem eraseAll_sweep : ∀ (L : List Nat) (g : Graph), SSA g → L.Pairwise (· > ·) →
+    (∀ i ∈ L, ∀ u, i ∈ (g.nd u).args → u ∈ L) → ∃ g', eraseAll L g = some g'
+  | [], g, _, _, _ => ⟨g, rfl⟩
+  | i :: rest, g, hs, hp, hcl => by
+    have hnu : hasUsers g i = false := by
+      by_contra hc
+      have hc' : hasUsers g i = true := by simpa using hc
+      obtain ⟨u, hu⟩ := (hasUsers_iff g i).1 hc'
+      have hiu : i < u := hs u i hu
+      rcases List.mem_cons.1 (hcl i (List.mem_cons_self ..) u hu) with h | h
+      · omega
+      · have := (List.pairwise_cons.1 hp).1 u h; omega
+    have hs' : SSA (g.set i Node.E) := by
+      intro j a ha
+      rw [nd_set_E] at ha
+      split at ha
+      · simp [Node.E] at ha
+      · exact hs j a ha
+    obtain ⟨g', hg'⟩ := eraseAll_sweep rest (g.set i Node.E) hs' (List.pairwise_cons.1 hp).2 (by
+      intro j hj u hu
+      rw [nd_set_E] at hu
+      split at hu
+      · simp [Node.E] at hu
+      · rename_i hne
+        rcases List.mem_cons.1 (hcl j (List.mem_cons_of_mem _ hj) u hu) with h | h
+        · exact absurd h.symm hne
+        · exact h)
+    exact ⟨g', by simp [eraseAll, eraseNode, hnu, hg']⟩
+
+/-- erasing the discarded branches never raises -/
+theorem erase_region_isSome {g : Graph} (hs : SSA g) (disc : List Nat) :
+    ∃ g', eraseAll (regionDesc g disc) g = some g' :=
+  eraseAll_sweep _ g hs (regionDesc_sorted g disc) (fun i hi u hu =>
+    mem_regionDesc.2 (inRegion_user hs disc hu (mem_regionDesc.1 hi)))
+
+
+/-! ## the invariant of the export loop -/
+
+/-- the loop invariant proper: `Core`, every visited combiner is gone, outputs are never erased -/
+structure ExpInv (win : String → Nat) (g0 : Graph) (k : Nat) (g : Graph) : Prop
+    extends Core win g0 k g where
+  done : ∀ i, i < k → (g.nd i).isCombine = false
+  outLive : ∀ i, i < g0.length → (g0.nd i).op = .output → (g.nd i).live = true
+
+theorem ExpInv.init {win : String → Nat} {g0 : Graph} (h : WF g0) : ExpInv win g0 0 g0 :=
+  { Core.init h with
+    done := fun i hi => absurd hi (Nat.not_lt_zero i)
+    outLive := fun i hi _ => h.2 i hi }
+
+/-- visiting a node that is not a (live) combiner changes nothing -/
+theorem Core.bump {win : String → Nat} {g0 g : Graph} {k : Nat} (h : Core win g0 k g) (hwf : WF g0)
+    (hk : (g.nd k).isCombine = false) : Core win g0 (k + 1) g := by
+  refine ⟨h.len, ?_, h.closed⟩
+  intro i
+  rcases h.shape i with hE | hsh
+  · exact Or.inl hE
+  · right
+    rw [hsh]
+    congr 1
+    apply List.map_congr_left
+    intro a ha
+    unfold rho
+    by_cases h1 : a < k
+    · simp [h1, Nat.lt_succ_of_lt h1]
+    · by_cases h2 : a = k
+      · subst h2
+        -- `a` is an argument of a live node, hence live, hence not a combiner of the SuperNet
+        have hil : i < g0.length := by
+          by_contra hc; rw [args_of_ge g0 i (by omega)] at ha; cases ha
+        have hli : (g.nd i).live = true := by
+          rw [hsh]; have := hwf.2 i hil; simpa [Node.live] using this
+        have hmem : a ∈ (g.nd i).args := by
+          rw [hsh]; exact List.mem_map.2 ⟨a, ha, by simp [rho]⟩
+        have hla := h.closed i hli a hmem
+        have hop := (h.op_eq a hla).1
+        have : (g0.nd a).isCombine = false := by
+          simpa [Node.isCombine, ← hop] using hk
+        simp [res_of_not_combine win g0 a this]
+      · have : ¬ a < k + 1 := by omega
+        simp [h1, this]
+
 theorem ExpInv.step {win : String → Nat} {g0 g g' : Graph} {k : Nat} (h : ExpInv win g0 k g)
-    (hs : SSA g0) (hk : k < g.length) (he : exportCombiner win g k = some g') :
-    ExpInv win g0 (k + 1) g' := by
-  have hlive := h.fresh k (Nat.le_refl k) hk
+    (hwf : WF g0) (he : exportCombiner win g k = some g') : ExpInv win g0 (k + 1) g' := by
+  have hs := hwf.1
   have hssa : SSA g := h.toCore.ssa hs
   by_cases hcomb : (g.nd k).isCombine = true
-  · -- a combiner
-    obtain ⟨c, hop⟩ := (isCombine_iff _).1 hcomb
+  · obtain ⟨c, hop⟩ := (isCombine_iff _).1 hcomb
+    have hlive : (g.nd k).live = true := by simp [Node.live, hop]
     unfold exportCombiner at he
     simp only [hop] at he
     cases hb : (g.nd k).args[win c]? with
@@ -446,29 +737,14 @@ theorem ExpInv.step {win : String → Nat} {g0 g g' : Graph} {k : Nat} (h : ExpI
     | some best =>
       simp only [hb, Option.bind_eq_some_iff] at he
       obtain ⟨g2, he2, he3⟩ := he
-      have hbk : best < k := hssa k best (List.mem_of_getElem? hb)
       have hc1 := h.toCore.replace hs hop hb
       have hc2 := hc1.erase he2
       have hc3 := Core.eraseAll _ hc2 he3
-      have hres := h.toCore.res_eq hs hop hb
-      have hg0k : (g0.nd k).isCombine = true := by
-        have := (h.toCore.op_eq k hlive).1
-        rw [hop] at this
-        simp [Node.isCombine, ← this]
+      have hssa2 : SSA g2 := hc2.ssa hs
       have hnd2 : ∀ j, Graph.nd g2 j = if k = j then Node.E else
           ⟨(g.nd j).op, (g.nd j).args.map (substId k best)⟩ := by
         intro j; rw [eraseNode_nd he2 j, nd_replaceUses]
-      -- a slot of the result is dead as soon as it was dead before
-      have hdead : ∀ j, (g.nd j).live = false → (Graph.nd g' j).live = false := by
-        intro j hd
-        rw [eraseAll_nd _ he3 j]
-        split
-        · exact E_not_live
-        · rw [hnd2]
-          split
-          · exact E_not_live
-          · simpa [Node.live] using hd
-      refine { hc3 with done := ?done, fresh := ?fresh, gone := ?gone, lost := ?lost }
+      refine { hc3 with done := ?done, outLive := ?outLive }
       case done =>
         intro i hi
         rw [eraseAll_nd _ he3 i]
@@ -479,91 +755,32 @@ theorem ExpInv.step {win : String → Nat} {g0 g g' : Graph} {k : Nat} (h : ExpI
           · exact isCombine_E
           · have : i < k := by omega
             simpa [Node.isCombine] using h.done i this
-      case fresh =>
-        intro i hki hil
+      case outLive =>
+        intro i hi ho
+        have hli := h.outLive i hi ho
+        have hopi : (g.nd i).op = .output := by rw [(h.toCore.op_eq i hli).1]; exact ho
+        have hki : k ≠ i := by intro hki; subst hki; rw [hop] at hopi; cases hopi
+        have h2 : (Graph.nd g2 i).op = .output := by rw [hnd2 i, if_neg hki]; exact hopi
         rw [eraseAll_nd _ he3 i]
-        have hnot : i ∉ ((g.nd k).args.eraseDups.filter (· != best)) := by
+        have hnot : i ∉ regionDesc g2 ((g.nd k).args.eraseDups.filter (· != best)) := by
           intro hmem
-          have : i ∈ (g.nd k).args := by
-            have := (List.mem_filter.1 hmem).1
-            simpa using this
-          have := hssa k i this
-          omega
-        rw [if_neg hnot, hnd2 i, if_neg (by omega)]
-        have hl : i < g.length := by
-          have := hc3.len; have := h.len; omega
-        have := h.fresh i (by omega) hl
-        simpa [Node.live] using this
-      case gone =>
-        intro i hil hdead'
-        rw [eraseAll_nd _ he3 i] at hdead'
-        by_cases hmem : i ∈ ((g.nd k).args.eraseDups.filter (· != best))
-        · right
-          have hi : i ∈ (g.nd k).args := by
-            have := (List.mem_filter.1 hmem).1
-            simpa using this
-          rw [(h.toCore.op_eq k hlive).2] at hi
-          simp only [List.mem_map] at hi
-          obtain ⟨a0, ha0, rfl⟩ := hi
-          have hlt : a0 < k := hs k a0 ha0
-          exact ⟨k, a0, hg0k, ha0, by simp [rho, hlt]⟩
-        · rw [if_neg hmem, hnd2 i] at hdead'
-          by_cases hki : k = i
-          · subst hki; exact Or.inl hg0k
-          · rw [if_neg hki] at hdead'
-            have hil' : i < g.length := by
-              have := hc3.len; have := h.len; omega
-            have : (g.nd i).live = false := by simpa [Node.live] using hdead'
-            exact h.gone i hil' this
-      case lost =>
-        intro n hn hcn a0 ha0 hne
-        by_cases hnk : n = k
-        · subst hnk
-          have hlt : a0 < n := hs n a0 ha0
-          have hmem : res win g0 a0 ∈ ((g.nd n).args.eraseDups.filter (· != best)) := by
-            rw [List.mem_filter]
-            refine ⟨?_, by rw [hres] at hne; simpa using hne⟩
-            rw [List.mem_eraseDups, (h.toCore.op_eq n hlive).2]
-            exact List.mem_map.2 ⟨a0, ha0, by simp [rho, hlt]⟩
-          rw [eraseAll_nd _ he3, if_pos hmem]; exact E_not_live
-        · exact hdead _ (h.lost n (by omega) hcn a0 ha0 hne)
-  · -- not a combiner: nothing happens
-    have hcomb' : (g.nd k).isCombine = false := by simpa using hcomb
+          exact inRegion_not_output hssa2 _ i (mem_regionDesc.1 hmem) h2
+        rw [if_neg hnot]
+        simp [Node.live, h2]
+  · have hcomb' : (g.nd k).isCombine = false := by simpa using hcomb
     have hg : g' = g := by
       unfold exportCombiner at he
       split at he
       · rename_i c hop; simp [Node.isCombine, hop] at hcomb'
       · injection he with he; exact he.symm
     subst hg
-    have hg0k : (g0.nd k).isCombine = false := by
-      have := (h.toCore.op_eq k hlive).1
-      simpa [Node.isCombine, this] using hcomb'
-    have hres : res win g0 k = k := res_of_not_combine win g0 k hg0k
-    have hrho : rho win g0 (k + 1) = rho win g0 k := by
-      funext a
-      unfold rho
-      by_cases h1 : a < k
-      · simp [h1, Nat.lt_succ_of_lt h1]
-      · by_cases h2 : a = k
-        · subst h2; simp [hres]
-        · have : ¬ a < k + 1 := by omega
-          simp [h1, this]
-    refine { len := h.len, shape := ?shape, closed := h.closed, done := ?done, fresh := ?fresh,
-             gone := h.gone, lost := ?lost }
-    case shape => rw [hrho]; exact h.shape
-    case done =>
-      intro i hi
-      by_cases hik : i = k
-      · subst hik; exact hcomb'
-      · exact h.done i (by omega)
-    case fresh => intro i hki hil; exact h.fresh i (by omega) hil
-    case lost =>
-      intro n hn hcn a0 ha0 hne
-      by_cases hnk : n = k
-      · subst hnk; rw [hg0k] at hcn; cases hcn
-      · exact h.lost n (by omega) hcn a0 ha0 hne
+    refine { h.toCore.bump hwf hcomb' with done := ?_, outLive := h.outLive }
+    intro i hi
+    by_cases hik : i = k
+    · subst hik; exact hcomb'
+    · exact h.done i (by omega)
 
-theorem ExpInv.loop {win : String → Nat} {g0 : Graph} (hs : SSA g0) :
+theorem ExpInv.loop {win : String → Nat} {g0 : Graph} (hwf : WF g0) :
     ∀ (t k : Nat) {g g' : Graph}, ExpInv win g0 k g → k + t = g0.length →
       exportLoop win t k g = some g' → ExpInv win g0 g0.length g'
   | 0, k, g, g', h, hk, he => by
@@ -574,122 +791,7 @@ theorem ExpInv.loop {win : String → Nat} {g0 : Graph} (hs : SSA g0) :
   | t + 1, k, g, g', h, hk, he => by
     simp only [exportLoop, Option.bind_eq_some_iff] at he
     obtain ⟨g1, h1, h2⟩ := he
-    have hkl : k < g.length := by rw [h.len]; omega
-    exact ExpInv.loop hs t (k + 1) (h.step hs hkl h1) (by omega) h2
-
-
-/-! ## dead-code elimination -/
-
-theorem dceStep_cases (g : Graph) (i : Nat) :
-    dceStep g i = g ∨ (eraseNode g i = some (dceStep g i) ∧ (g.nd i).impure = false ∧
-      dceStep g i = g.set i Node.E) := by
-  unfold dceStep
-  split
-  · rename_i hc
-    simp only [Bool.and_eq_true, Bool.not_eq_true'] at hc
-    right
-    exact ⟨by simp [eraseNode, hc.2], hc.1.2, rfl⟩
-  · exact Or.inl rfl
-
-theorem dceLoop_inv (P : Graph → Prop) (hP : ∀ g i, P g → P (dceStep g i)) :
-    ∀ (i : Nat) (g : Graph), P g → P (dceLoop i g)
-  | 0, _, h => h
-  | i + 1, g, h => dceLoop_inv P hP i _ (hP g i h)
-
-theorem dceStep_nd (g : Graph) (i j : Nat) :
-    Graph.nd (dceStep g i) j = g.nd j ∨ (Graph.nd (dceStep g i) j = Node.E ∧ (g.nd j).impure = false ∧
-      hasUsers g j = false) := by
-  rcases dceStep_cases g i with h | ⟨he, himp, hset⟩
-  · rw [h]; exact Or.inl rfl
-  · rw [hset, nd_set_E]
-    by_cases hij : i = j
-    · subst hij; right; exact ⟨by simp, himp, (eraseNode_eq_some he).1⟩
-    · left; simp [hij]
-
-@[simp] theorem length_dceStep (g : Graph) (i : Nat) : (dceStep g i).length = g.length := by
-  rcases dceStep_cases g i with h | ⟨-, -, hset⟩
-  · rw [h]
-  · rw [hset]; simp
-
-theorem Core.dceStep {win : String → Nat} {g0 g : Graph} {k : Nat} (h : Core win g0 k g) (i : Nat) :
-    Core win g0 k (dceStep g i) := by
-  rcases dceStep_cases g i with h' | ⟨he, -, -⟩
-  · rw [h']; exact h
-  · exact h.erase he
-
-/-- the invariant of the reversed pass: every surviving pure node from `i` on has a user -/
-def DceDone (g : Graph) (i : Nat) : Prop :=
-  ∀ j, i ≤ j → (g.nd j).live = true → (g.nd j).impure = true ∨ hasUsers g j = true
-
-theorem DceDone.step {g : Graph} (hs : SSA g) {i : Nat} (h : DceDone g (i + 1)) :
-    DceDone (dceStep g i) i := by
-  intro j hij hl
-  rcases dceStep_cases g i with h' | ⟨he, himp, hset⟩
-  · rw [h'] at hl ⊢
-    by_cases hji : j = i
-    · subst hji
-      -- the step did nothing although the node is live: it is impure or used
-      unfold dceStep at h'
-      split at h'
-      · rename_i hc
-        simp only [Bool.and_eq_true, Bool.not_eq_true'] at hc
-        have hlt : j < g.length := live_lt g j hl
-        have : Graph.nd (g.set j Node.E) j = g.nd j := by rw [h']
-        rw [nd_set_E] at this
-        simp only [if_true] at this
-        rw [← this, E_not_live] at hl; cases hl
-      · rename_i hc
-        simp only [Bool.and_eq_true, Bool.not_eq_true', not_and, Bool.not_eq_false] at hc
-        by_cases himp : (g.nd j).impure = true
-        · exact Or.inl himp
-        · right; exact hc ⟨hl, by simpa using himp⟩
-    · exact h j (by omega) hl
-  · rw [hset] at hl ⊢
-    rw [nd_set_E] at hl ⊢
-    by_cases hji : i = j
-    · rw [if_pos hji, E_not_live] at hl; cases hl
-    · rw [if_neg hji] at hl ⊢
-      rcases h j (by omega) hl with h1 | h1
-      · exact Or.inl h1
-      · right
-        obtain ⟨u, hu⟩ := (hasUsers_iff g j).1 h1
-        have hju : j < u := hs u j hu
-        refine (hasUsers_iff _ j).2 ⟨u, ?_⟩
-        rw [nd_set_E, if_neg (by omega)]; exact hu
-
-theorem dceStep_ssa {g : Graph} (hs : SSA g) (i : Nat) : SSA (dceStep g i) := by
-  intro j a ha
-  rcases dceStep_nd g i j with h | ⟨h, -, -⟩
-  · rw [h] at ha; exact hs j a ha
-  · rw [h] at ha; simp [Node.E] at ha
-
-theorem DceDone.loop : ∀ (i : Nat) {g : Graph}, SSA g → DceDone g i → DceDone (dceLoop i g) 0
-  | 0, _, _, h => h
-  | i + 1, g, hs, h => DceDone.loop i (dceStep_ssa hs i) (DceDone.step hs h)
-
-/-- after `eliminate_dead_code` every surviving node that is not a placeholder / output is used -/
-theorem dce_done {g : Graph} (hs : SSA g) : DceDone (dce g) 0 := by
-  apply DceDone.loop _ hs
-  intro j hj hl
-  have := live_lt g j hl
-  omega
-
-theorem dce_nd (g : Graph) (j : Nat) :
-    Graph.nd (dce g) j = g.nd j ∨ (Graph.nd (dce g) j = Node.E ∧ (g.nd j).impure = false) := by
-  unfold dce
-  refine dceLoop_inv (fun g' => Graph.nd g' j = g.nd j ∨ (Graph.nd g' j = Node.E ∧ (g.nd j).impure = false))
-    ?_ g.length g (Or.inl rfl)
-  intro g' i hg'
-  rcases dceStep_nd g' i j with h | ⟨h, himp, -⟩
-  · rw [h]; exact hg'
-  · rcases hg' with h1 | ⟨h1, h2⟩
-    · right; exact ⟨h, by rw [← h1]; exact himp⟩
-    · right; exact ⟨h, h2⟩
-
-theorem Core.dce {win : String → Nat} {g0 g : Graph} {k : Nat} (h : Core win g0 k g) :
-    Core win g0 k (dce g) :=
-  dceLoop_inv (Core win g0 k) (fun _ i hg => hg.dceStep i) g.length g h
-
+    exact ExpInv.loop hwf t (k + 1) (h.step hwf h1) (by omega) h2
 
 /-! ## what `exportGraph` guarantees -/
 
@@ -714,55 +816,23 @@ structure ExportSpec (win : String → Nat) (g0 g : Graph) : Prop where
   userLive : ∀ i j, i ∈ (g.nd j).args → (g.nd j).live = true
   /-- a slot that is not live is the erased slot -/
   deadE : ∀ i, (g.nd i).live = false → g.nd i = Node.E
-  /-- every surviving node other than placeholders / output is used by a surviving node -/
-  used : ∀ j, (g.nd j).live = true → (g.nd j).impure = true ∨ hasUsers g j = true
-  /-- the branch outputs of every combiner, other than the winner's, are gone -/
-  lost : ∀ n, (g0.nd n).isCombine = true → ∀ a0 ∈ (g0.nd n).args,
-    res win g0 a0 ≠ res win g0 n → (g.nd (res win g0 a0)).live = false
-  /-- only combiners, (resolved) branch outputs and pure nodes are ever removed -/
-  gone : ∀ i, i < g.length → (g.nd i).live = false → (g0.nd i).isCombine = true ∨
-    (∃ n a0, (g0.nd n).isCombine = true ∧ a0 ∈ (g0.nd n).args ∧ i = res win g0 a0) ∨
-    (g0.nd i).impure = false
+  /-- the outputs are there -/
+  outLive : ∀ i, i < g0.length → (g0.nd i).op = .output → (g.nd i).live = true
 
 theorem exportGraph_spec {win : String → Nat} {g0 g : Graph} (hwf : WF g0)
     (he : exportGraph win g0 = some g) : ExportSpec win g0 g := by
-  unfold exportGraph exportPass at he
-  simp only [Option.map_eq_some_iff] at he
-  obtain ⟨g1, he1, rfl⟩ := he
-  have hinv : ExpInv win g0 g0.length g1 :=
-    ExpInv.loop hwf.1 g0.length 0 (ExpInv.init hwf) (by simp) he1
-  have hcore := hinv.toCore.dce
-  have hssa1 : SSA g1 := hinv.toCore.ssa hwf.1
+  unfold exportGraph at he
+  have hinv : ExpInv win g0 g0.length g :=
+    ExpInv.loop hwf g0.length 0 (ExpInv.init hwf) (by simp) he
+  have hcore := hinv.toCore
   refine { len := hcore.len, shape := ?shape, closed := hcore.closed, plain := ?plain,
-           userLive := ?userLive, deadE := ?deadE, used := ?used, gone := ?gone, lost := ?lost }
-  case deadE =>
-    intro i hd
-    rcases hcore.shape i with hE | hsh
-    · exact hE
-    · by_cases hi : i < g0.length
-      · rw [hsh] at hd
-        have := hwf.2 i hi
-        simp [Node.live] at hd this
-        exact absurd hd this
-      · exact nd_of_ge _ i (by rw [hcore.len]; omega)
-  case lost =>
-    intro n hcn a0 ha0 hne
-    have hn : n < g0.length := by
-      by_contra hc
-      rw [nd_of_ge g0 n (by omega)] at hcn; cases hcn
-    have hd := hinv.lost n hn hcn a0 ha0 hne
-    rcases dce_nd g1 (res win g0 a0) with h | ⟨h, -⟩
-    · rw [h]; exact hd
-    · rw [h]; exact E_not_live
+           userLive := ?userLive, deadE := ?deadE, outLive := hinv.outLive }
   case shape => have := hcore.shape; rw [rho_length] at this; exact this
   case plain =>
     intro i
-    rcases dce_nd g1 i with h | ⟨h, -⟩
-    · rw [h]
-      by_cases hi : i < g0.length
-      · exact hinv.done i hi
-      · rw [nd_of_ge g1 i (by rw [hinv.len]; omega)]; rfl
-    · rw [h]; rfl
+    by_cases hi : i < g0.length
+    · exact hinv.done i hi
+    · rw [nd_of_ge g i (by rw [hinv.len]; omega)]; rfl
   case userLive =>
     intro i j hij
     by_contra hc
@@ -775,23 +845,16 @@ theorem exportGraph_spec {win : String → Nat} {g0 g : Graph} (hwf : WF g0)
       have := hwf.2 j hjl
       simp [Node.live] at hc this
       exact this hc
-  case used => intro j hl; exact dce_done hssa1 j (Nat.zero_le j) hl
-  case gone =>
-    intro i hi hdead
-    have hi1 : i < g1.length := by rw [hinv.len, ← hcore.len]; exact hi
-    rcases dce_nd g1 i with h | ⟨-, h⟩
-    · rw [h] at hdead
-      rcases hinv.gone i hi1 hdead with h1 | h1
-      · exact Or.inl h1
-      · exact Or.inr (Or.inl h1)
-    · by_cases hl1 : (g1.nd i).live = true
-      · right; right
-        have := (hinv.toCore.op_eq i hl1).1
-        simpa [Node.impure, this] using h
-      · have hd1 : (g1.nd i).live = false := by simpa using hl1
-        rcases hinv.gone i hi1 hd1 with h1 | h1
-        · exact Or.inl h1
-        · exact Or.inr (Or.inl h1)
+  case deadE =>
+    intro i hd
+    rcases hcore.shape i with hE | hsh
+    · exact hE
+    · by_cases hi : i < g0.length
+      · rw [hsh] at hd
+        have := hwf.2 i hi
+        simp [Node.live] at hd this
+        exact absurd hd this
+      · exact nd_of_ge _ i (by rw [hcore.len]; omega)
 
 theorem ExportSpec.ssa {win : String → Nat} {g0 g : Graph} (h : ExportSpec win g0 g) (hs : SSA g0) :
     SSA g := by
@@ -911,194 +974,152 @@ theorem softEval_onehot (En : Env M) (win : String → Nat) (θ : String → Lis
 end onehot
 
 
-/-! ## export does not raise on graphs traced from `SuperNetModule`s -/
 
-/-- the discipline a traced `SuperNetModule` obeys: the winner index is in range, a branch
-output is not itself a choice node, and it feeds its combiner only -/
-structure Discipline (win : String → Nat) (g0 : Graph) : Prop where
-  inRange : ∀ n c, (g0.nd n).op = .combine c → win c < (g0.nd n).args.length
-  flat : ∀ n, (g0.nd n).isCombine = true → ∀ o ∈ (g0.nd n).args, (g0.nd o).isCombine = false
-  own : ∀ n, (g0.nd n).isCombine = true → ∀ o ∈ (g0.nd n).args, ∀ j, o ∈ (g0.nd j).args → j = n
 
-/-- with flat blocks the resolution of a combiner is simply its winner's output node -/
-theorem Discipline.res_combine {win : String → Nat} {g0 : Graph} (hd : Discipline win g0) (hs : SSA g0)
-    {a : Nat} {c : String} (hop : (g0.nd a).op = .combine c) :
-    ∃ b, (g0.nd a).args[win c]? = some b ∧ res win g0 a = b := by
-  have hr := hd.inRange a c hop
-  refine ⟨(g0.nd a).args[win c], by simp [hr], ?_⟩
-  have hb : (g0.nd a).args[win c]? = some (g0.nd a).args[win c] := by simp [hr]
-  have hmem : (g0.nd a).args[win c] ∈ (g0.nd a).args := List.getElem_mem hr
-  rw [PlinioVerif.SuperNet.res_combine win g0 a _ c hop hb (hs a _ hmem)]
-  exact res_of_not_combine win g0 _ (hd.flat a ((isCombine_iff _).2 ⟨c, hop⟩) _ hmem)
+/-! ## export does not raise -/
 
-theorem hasUsers_set_E {g : Graph} {i o : Nat} (h : hasUsers g o = false) :
-    hasUsers (g.set i Node.E) o = false := by
-  by_contra hc
-  have hc' : hasUsers (g.set i Node.E) o = true := by simpa using hc
-  obtain ⟨j, hj⟩ := (hasUsers_iff _ _).1 hc'
-  rw [nd_set_E] at hj
-  split at hj
-  · simp [Node.E] at hj
-  · have : hasUsers g o = true := (hasUsers_iff g o).2 ⟨j, hj⟩
-    rw [h] at this; cases this
-
-theorem eraseAll_isSome : ∀ (is : List Nat) (g : Graph), (∀ o ∈ is, hasUsers g o = false) →
-    ∃ g', eraseAll is g = some g'
-  | [], g, _ => ⟨g, rfl⟩
-  | i :: is, g, h => by
-    have hi : hasUsers g i = false := h i (List.mem_cons_self ..)
-    obtain ⟨g', hg'⟩ := eraseAll_isSome is (g.set i Node.E)
-      (fun o ho => hasUsers_set_E (h o (List.mem_cons_of_mem _ ho)))
-    exact ⟨g', by simp [eraseAll, eraseNode, hi, hg']⟩
+/-- the winner index of every combiner is one of its branches -/
+def WinInRange (win : String → Nat) (g0 : Graph) : Prop :=
+  ∀ n c, (g0.nd n).op = .combine c → win c < (g0.nd n).args.length
 
 theorem ExpInv.progress {win : String → Nat} {g0 g : Graph} {k : Nat} (h : ExpInv win g0 k g)
-    (hs : SSA g0) (hd : Discipline win g0) (hk : k < g.length) :
-    ∃ g', exportCombiner win g k = some g' := by
-  have hlive := h.fresh k (Nat.le_refl k) hk
+    (hs : SSA g0) (hr : WinInRange win g0) : ∃ g', exportCombiner win g k = some g' := by
   have hssa : SSA g := h.toCore.ssa hs
-  obtain ⟨hop0, hargs0⟩ := h.toCore.op_eq k hlive
   cases hop : (g.nd k).op with
   | combine c =>
-    have hop0' : (g0.nd k).op = .combine c := by rw [← hop0]; exact hop
-    have hcomb0 : (g0.nd k).isCombine = true := (isCombine_iff _).2 ⟨c, hop0'⟩
-    -- the branch outputs are untouched so far
-    have hargs : (g.nd k).args = (g0.nd k).args := by
-      rw [hargs0]
-      conv_rhs => rw [← List.map_id (g0.nd k).args]
-      apply List.map_congr_left
-      intro o ho
-      have : res win g0 o = o := res_of_not_combine win g0 o (hd.flat k hcomb0 o ho)
-      simp [rho, this]
-    obtain ⟨best, hb0, hres⟩ := hd.res_combine hs hop0'
-    have hb : (g.nd k).args[win c]? = some best := by rw [hargs]; exact hb0
-    have hbk : best < k := hssa k best (List.mem_of_getElem? hb)
+    have hlive : (g.nd k).live = true := by simp [Node.live, hop]
+    obtain ⟨hop0, hargs0⟩ := h.toCore.op_eq k hlive
+    have hlen : win c < (g.nd k).args.length := by
+      rw [hargs0, List.length_map]; exact hr k c (by rw [← hop0]; exact hop)
+    have hb : (g.nd k).args[win c]? = some (g.nd k).args[win c] := by simp [hlen]
+    have hbk : (g.nd k).args[win c] < k := hssa k _ (List.mem_of_getElem? hb)
     unfold exportCombiner
     simp only [hop, hb]
     have hnu := no_users_after_replace hssa hbk
-    have he2 : eraseNode (replaceUses k best g) k = some ((replaceUses k best g).set k Node.E) := by
+    have he2 : eraseNode (replaceUses k (g.nd k).args[win c] g) k =
+        some ((replaceUses k (g.nd k).args[win c] g).set k Node.E) := by
       simp [eraseNode, hnu]
     rw [he2]
     simp only [Option.bind_some]
-    apply eraseAll_isSome
-    intro o ho
-    have hc2 : Core win g0 (k + 1) ((replaceUses k best g).set k Node.E) :=
-      (h.toCore.replace hs hop hb).erase he2
-    have ho_mem : o ∈ (g0.nd k).args := by
-      have := (List.mem_filter.1 ho).1
-      rw [hargs] at this; simpa using this
-    have ho_ne : o ≠ best := by
-      have := (List.mem_filter.1 ho).2
-      simpa using this
-    have hok : o < k := hs k o ho_mem
-    by_contra hc
-    have hc' : hasUsers ((replaceUses k best g).set k Node.E) o = true := by simpa using hc
-    obtain ⟨j, hj⟩ := (hasUsers_iff _ _).1 hc'
-    -- j is a surviving user of o after the combiner has been erased
-    have hjk : j ≠ k := by
-      intro hjk; subst hjk
-      rw [nd_set_E] at hj; simp [Node.E] at hj
-    rcases hc2.shape j with hE | hsh
-    · rw [hE] at hj; simp [Node.E] at hj
-    · rw [hsh] at hj
-      simp only [List.mem_map] at hj
-      obtain ⟨a, ha, hao⟩ := hj
-      unfold rho at hao
-      split at hao
-      · rename_i hak
-        by_cases hca : (g0.nd a).isCombine = true
-        · obtain ⟨ca, hopa⟩ := (isCombine_iff _).1 hca
-          obtain ⟨b, hba, hresa⟩ := hd.res_combine hs hopa
-          rw [hresa] at hao
-          subst hao
-          -- o is a branch output of `a` and of `k`
-          have : a = k := hd.own k hcomb0 b ho_mem a (List.mem_of_getElem? hba)
-          subst this
-          rw [hopa] at hop0'
-          injection hop0' with hcc
-          subst hcc
-          rw [hba] at hb0
-          injection hb0 with hbb
-          exact ho_ne hbb
-        · have hca' : (g0.nd a).isCombine = false := by simpa using hca
-          rw [res_of_not_combine win g0 a hca'] at hao
-          subst hao
-          exact hjk (hd.own k hcomb0 a ho_mem j ha)
-      · omega
+    exact erase_region_isSome (((h.toCore.replace hs hop hb).erase he2).ssa hs) _
   | input _ => exact ⟨g, by simp [exportCombiner, hop]⟩
   | leaf _ => exact ⟨g, by simp [exportCombiner, hop]⟩
   | output => exact ⟨g, by simp [exportCombiner, hop]⟩
   | erased => exact ⟨g, by simp [exportCombiner, hop]⟩
 
-theorem ExpInv.loop_isSome {win : String → Nat} {g0 : Graph} (hs : SSA g0) (hd : Discipline win g0) :
+theorem ExpInv.loop_isSome {win : String → Nat} {g0 : Graph} (hwf : WF g0) (hr : WinInRange win g0) :
     ∀ (t k : Nat) {g : Graph}, ExpInv win g0 k g → k + t = g0.length →
       ∃ g', exportLoop win t k g = some g'
   | 0, _, g, _, _ => ⟨g, rfl⟩
   | t + 1, k, g, h, hk => by
-    have hkl : k < g.length := by rw [h.len]; omega
-    obtain ⟨g1, h1⟩ := h.progress hs hd hkl
-    obtain ⟨g', h2⟩ := ExpInv.loop_isSome hs hd t (k + 1) (h.step hs hkl h1) (by omega)
+    obtain ⟨g1, h1⟩ := h.progress hwf.1 hr
+    obtain ⟨g', h2⟩ := ExpInv.loop_isSome hwf hr t (k + 1) (h.step hwf h1) (by omega)
     exact ⟨g', by simp [exportLoop, h1, h2]⟩
 
-theorem exportGraph_isSome {win : String → Nat} {g0 : Graph} (hwf : WF g0) (hd : Discipline win g0) :
-    ∃ g, exportGraph win g0 = some g := by
-  obtain ⟨g1, h1⟩ := ExpInv.loop_isSome hwf.1 hd g0.length 0 (ExpInv.init hwf) (by simp)
-  exact ⟨dce g1, by simp [exportGraph, exportPass, h1]⟩
+/-- export raises only on an out-of-range winner index -/
+theorem exportGraph_isSome {win : String → Nat} {g0 : Graph} (hwf : WF g0) (hr : WinInRange win g0) :
+    ∃ g, exportGraph win g0 = some g :=
+  ExpInv.loop_isSome hwf hr g0.length 0 (ExpInv.init hwf) (by simp)
 
-
-/-! ## which nodes survive -/
-
-/-- `i` is an `output` node or (transitively) an argument of one -/
-inductive FeedsOutput (g : Graph) : Nat → Prop
-  | out (i : Nat) : (g.nd i).op = .output → FeedsOutput g i
-  | step (i j : Nat) : i ∈ (g.nd j).args → FeedsOutput g j → FeedsOutput g i
+/-! ## the discarded branches are gone -/
 
 /-- what fx guarantees about placeholders and outputs -/
 structure IOSane (g0 : Graph) : Prop where
   inputNoArgs : ∀ j k, (g0.nd j).op = .input k → (g0.nd j).args = []
   outputUnused : ∀ i j, (g0.nd i).op = .output → i ∉ (g0.nd j).args
 
-/-- the traced graph contains no function that fx regards as impure (torch random functions,
-`torch._assert`): dead-code elimination can then remove everything that is unused -/
-def PureLeaves (g0 : Graph) : Prop := ∀ i, (g0.nd i).impure = (g0.nd i).isIO
+/-- one visit of the loop: the output node of a discarded branch that fed this combiner only (and is
+neither a placeholder nor an output) is erased — together with its whole branch, see
+`inRegion_user` — whatever the branch contains -/
+theorem exportCombiner_drops_discarded {win : String → Nat} {g g' : Graph} {k : Nat} {c : String}
+    {best o : Nat} (hs : SSA g) (hop : (g.nd k).op = .combine c)
+    (hb : (g.nd k).args[win c]? = some best) (ho : o ∈ (g.nd k).args) (hne : o ≠ best)
+    (hown : ∀ j, o ∈ (g.nd j).args → j = k) (hnin : isInput (g.nd o) = false)
+    (hnout : (g.nd o).op ≠ .output) (he : exportCombiner win g k = some g') :
+    (Graph.nd g' o).live = false := by
+  unfold exportCombiner at he
+  simp only [hop, hb, Option.bind_eq_some_iff] at he
+  obtain ⟨g2, he2, he3⟩ := he
+  have hbk : best < k := hs k best (List.mem_of_getElem? hb)
+  have hok : o < k := hs k o ho
+  have hnd2 : ∀ j, Graph.nd g2 j = if k = j then Node.E else
+      ⟨(g.nd j).op, (g.nd j).args.map (substId k best)⟩ := by
+    intro j; rw [eraseNode_nd he2 j, nd_replaceUses]
+  have hssa2 : SSA g2 := by
+    intro j a ha
+    rw [hnd2 j] at ha
+    split at ha
+    · simp [Node.E] at ha
+    · simp only [List.mem_map] at ha
+      obtain ⟨a0, ha0, rfl⟩ := ha
+      have := hs j a0 ha0
+      unfold substId; split <;> omega
+  have hnu : hasUsers g2 o = false := by
+    by_contra hc
+    have hc' : hasUsers g2 o = true := by simpa using hc
+    obtain ⟨j, hj⟩ := (hasUsers_iff _ _).1 hc'
+    rw [hnd2 j] at hj
+    split at hj
+    · simp [Node.E] at hj
+    · rename_i hkj
+      simp only [List.mem_map] at hj
+      obtain ⟨a, ha, hao⟩ := hj
+      unfold substId at hao
+      split at hao
+      · exact hne hao.symm
+      · subst hao; exact hkj (hown j ha).symm
+  have hopo : (Graph.nd g2 o).op = (g.nd o).op := by rw [hnd2 o, if_neg (by omega)]
+  have hlt2 : o < g2.length := by
+    have h1 : g2.length = g.length := by
+      obtain ⟨-, rfl⟩ := eraseNode_eq_some he2; simp
+    have : k < g.length := live_lt g k (by simp [Node.live, hop])
+    omega
+  have hmem : o ∈ ((g.nd k).args.eraseDups.filter (· != best)) := by
+    rw [List.mem_filter, List.mem_eraseDups]
+    exact ⟨ho, by simpa using hne⟩
+  have hanc := anc_of_discarded hlt2 hmem
+    (not_alive_of_unused hnu (by rw [hopo]; exact hnout)) (by unfold isInput at hnin ⊢; rw [hopo]; exact hnin)
+  have hreg : inRegion g2 ((g.nd k).args.eraseDups.filter (· != best)) o = true := by
+    rw [inRegion_eq hssa2 _ o hlt2, hanc]; rfl
+  rw [eraseAll_nd _ he3 o, if_pos (mem_regionDesc.2 hreg)]
+  exact E_not_live
 
-theorem pureLeavesB_sound {g : Graph} (h : pureLeavesB g = true) : PureLeaves g := by
-  unfold pureLeavesB at h
-  simp only [List.all_eq_true, beq_iff_eq] at h
-  intro i
-  by_cases hi : i < g.length
-  · apply h
-    unfold Graph.nd
-    rw [getD_lt g i _ hi]; exact List.getElem_mem hi
-  · rw [nd_of_ge g i (by omega)]; rfl
+/-- what a visit has erased stays erased -/
+theorem exportCombiner_mono {win : String → Nat} {g g' : Graph} {k i : Nat}
+    (he : exportCombiner win g k = some g') (hd : (g.nd i).live = false) : (Graph.nd g' i).live = false := by
+  by_cases hcomb : (g.nd k).isCombine = true
+  · obtain ⟨c, hop⟩ := (isCombine_iff _).1 hcomb
+    unfold exportCombiner at he
+    simp only [hop] at he
+    cases hb : (g.nd k).args[win c]? with
+    | none => simp [hb] at he
+    | some best =>
+      simp only [hb, Option.bind_eq_some_iff] at he
+      obtain ⟨g2, he2, he3⟩ := he
+      rw [eraseAll_nd _ he3 i]
+      split
+      · exact E_not_live
+      · rw [eraseNode_nd he2 i, nd_replaceUses]
+        split
+        · exact E_not_live
+        · simpa [Node.live] using hd
+  · have hcomb' : (g.nd k).isCombine = false := by simpa using hcomb
+    have hg : g' = g := by
+      unfold exportCombiner at he
+      split at he
+      · rename_i c hop; simp [Node.isCombine, hop] at hcomb'
+      · injection he with he; exact he.symm
+    subst hg; exact hd
 
-theorem ExportSpec.feeds {win : String → Nat} {g0 g : Graph} (h : ExportSpec win g0 g) (hs : SSA g0)
-    (hio : IOSane g0) (hpure : PureLeaves g0) (i : Nat) (hl : (g.nd i).live = true) :
-    (∃ k, (g.nd i).op = .input k) ∨ FeedsOutput g i := by
-  generalize hm : g.length - i = m
-  induction m using Nat.strong_induction_on generalizing i with
-  | _ m ih =>
-    rcases h.used i hl with himp | hu
-    · have hnode := h.node_eq i hl
-      have himp0 : (g0.nd i).isIO = true := by
-        rw [← hpure i]
-        rw [hnode] at himp
-        simpa [Node.impure] using himp
-      unfold Node.isIO at himp0
-      split at himp0
-      · rename_i k hk; exact Or.inl ⟨k, by rw [hnode]; exact hk⟩
-      · rename_i hk; exact Or.inr (FeedsOutput.out i (by rw [hnode]; exact hk))
-      · cases himp0
-    · obtain ⟨j, hj⟩ := (hasUsers_iff g i).1 hu
-      have hij : i < j := h.ssa hs j i hj
-      have hjl : (g.nd j).live = true := h.userLive i j hj
-      have hjg : j < g.length := live_lt g j hjl
-      rcases ih (g.length - j) (by omega) j hjl rfl with ⟨k, hk⟩ | hf
-      · -- a placeholder has no arguments
-        have hnode := h.node_eq j hjl
-        have hop0 : (g0.nd j).op = .input k := by rw [hnode] at hk; exact hk
-        rw [hnode, hio.inputNoArgs j k hop0] at hj
-        simp at hj
-      · exact Or.inr (FeedsOutput.step i j hj hf)
+theorem exportLoop_mono {win : String → Nat} : ∀ (t k : Nat) {g g' : Graph} {i : Nat},
+    exportLoop win t k g = some g' → (g.nd i).live = false → (Graph.nd g' i).live = false
+  | 0, _, g, g', i, he, hd => by simp [exportLoop] at he; subst he; exact hd
+  | t + 1, k, g, g', i, he, hd => by
+    simp only [exportLoop, Option.bind_eq_some_iff] at he
+    obtain ⟨g1, h1, h2⟩ := he
+    exact exportLoop_mono t (k + 1) h2 (exportCombiner_mono h1 hd)
+
+/-! ## which nodes are kept -/
 
 /-- the nodes export keeps, read off the traced SuperNet: outputs, and the resolved arguments of
 kept nodes -/
@@ -1124,23 +1145,13 @@ theorem res_eq_cases (win : String → Nat) (g0 : Graph) (hs : SSA g0) (a i : Na
         · exact Or.inr h1
     · rw [res_of_not_combine win g0 a (by simpa using hc)] at h; exact Or.inl h
 
-theorem ExportSpec.output_live {win : String → Nat} {g0 g : Graph} (h : ExportSpec win g0 g)
-    (hs : SSA g0) (hio : IOSane g0) (i : Nat) (hi : i < g0.length) (hop : (g0.nd i).op = .output) :
-    (g.nd i).live = true := by
-  by_contra hc
-  have hd : (g.nd i).live = false := by simpa using hc
-  rcases h.gone i (by rw [h.len]; exact hi) hd with h1 | ⟨n, a0, _, ha0, hres⟩ | h1
-  · simp [Node.isCombine, hop] at h1
-  · rcases res_eq_cases win g0 hs a0 i hres.symm with h2 | ⟨n', _, h2⟩
-    · subst h2; exact hio.outputUnused a0 n hop ha0
-    · exact hio.outputUnused i n' hop h2
-  · simp [Node.impure, hop] at h1
+theorem ExportSpec.keeps_live_aux : True := trivial
 
 theorem ExportSpec.keeps_live {win : String → Nat} {g0 g : Graph} (h : ExportSpec win g0 g)
-    (hs : SSA g0) (hio : IOSane g0) (i : Nat) (hk : Keeps win g0 i) (hi : i < g0.length) :
+    (i : Nat) (hk : Keeps win g0 i) (hi : i < g0.length) :
     (g.nd i).live = true := by
   induction hk with
-  | out i hop => exact h.output_live hs hio i hi hop
+  | out i hop => exact h.outLive i hi hop
   | step a j _ ha ih =>
     have hj : j < g0.length := by
       by_contra hc
@@ -1150,25 +1161,8 @@ theorem ExportSpec.keeps_live {win : String → Nat} {g0 g : Graph} (h : ExportS
     rw [h.node_eq j hjl]
     exact List.mem_map_of_mem ha
 
-theorem ExportSpec.feeds_keeps {win : String → Nat} {g0 g : Graph} (h : ExportSpec win g0 g)
-    (i : Nat) (hf : FeedsOutput g i) : Keeps win g0 i := by
-  induction hf with
-  | out i hop =>
-    have hl : (g.nd i).live = true := by simp [Node.live, hop]
-    rw [h.node_eq i hl] at hop
-    exact Keeps.out i hop
-  | step i j hij _ ih =>
-    have hl : (g.nd j).live = true := h.userLive i j hij
-    rw [h.node_eq j hl] at hij
-    simp only [List.mem_map] at hij
-    obtain ⟨a, ha, rfl⟩ := hij
-    exact Keeps.step a j ih ha
-
 
 /-! ## the executable hypothesis checks are sound -/
-
-theorem args_of_ge (g : Graph) (i : Nat) (h : g.length ≤ i) : (g.nd i).args = [] := by
-  rw [nd_of_ge g i h]; rfl
 
 theorem wfB_sound {g : Graph} (h : wfB g = true) : WF g := by
   unfold wfB at h
@@ -1203,34 +1197,16 @@ theorem ioSaneB_sound {g : Graph} (h : ioSaneB g = true) : IOSane g := by
     · have : hasUsers g i = true := (hasUsers_iff g i).2 ⟨j, hij⟩
       rw [h3] at this; cases this
 
-theorem disciplineB_sound {win : String → Nat} {g : Graph} (h : disciplineB win g = true) :
-    Discipline win g := by
-  unfold disciplineB at h
-  simp only [List.all_eq_true, List.mem_range] at h
-  have key : ∀ n c, (g.nd n).op = .combine c → win c < (g.nd n).args.length ∧
-      ∀ o ∈ (g.nd n).args, (g.nd o).isCombine = false ∧
-        ∀ j, j < g.length → (g.nd j).args.contains o = false ∨ j = n := by
-    intro n c hop
-    have hn : n < g.length := by
-      by_contra hc; rw [nd_of_ge g n (by omega)] at hop; cases hop
-    have := h n hn
-    simp only [hop, Bool.and_eq_true, decide_eq_true_eq, List.all_eq_true, Bool.not_eq_true',
-      List.mem_range, Bool.or_eq_true, beq_iff_eq] at this
-    exact ⟨this.1, fun o ho => ⟨(this.2 o ho).1, fun j hj => (this.2 o ho).2 j hj⟩⟩
-  constructor
-  · intro n c hop; exact (key n c hop).1
-  · intro n hn o ho
-    obtain ⟨c, hop⟩ := (isCombine_iff _).1 hn
-    exact ((key n c hop).2 o ho).1
-  · intro n hn o ho j hj
-    obtain ⟨c, hop⟩ := (isCombine_iff _).1 hn
-    have hjl : j < g.length := by
-      by_contra hc; rw [args_of_ge g j (by omega)] at hj; cases hj
-    rcases ((key n c hop).2 o ho).2 j hjl with h1 | h1
-    · have : (g.nd j).args.contains o = true := by simpa using hj
-      rw [h1] at this; cases this
-    · exact h1
 
+theorem winInRangeB_sound {win : String → Nat} {g : Graph} (h : winInRangeB win g = true) :
+    WinInRange win g := by
+  unfold winInRangeB at h
+  simp only [List.all_eq_true] at h
+  intro n c hop
+  have hn : n < g.length := by
+    by_contra hc; rw [nd_of_ge g n (by omega)] at hop; cases hop
+  have := h (g.nd n) (by unfold Graph.nd; rw [getD_lt g n _ hn]; exact List.getElem_mem hn)
+  simpa [hop] using this
 
 /-! # cost (C06) -/
 section costsum
